@@ -13,7 +13,7 @@ From Coq Require Import List Arith Bool.
 From WV Require Import Model.ChanFault Proof.ChanFaultSpec.
 Import ListNotations.
 
-Definition wcfg : cfg := mkCfg 0 1 100 1000 false true.
+Definition wcfg : cfg := mkCfg 0 1 100 1000 false true false.
 
 Definition w_loop : list choice :=
   [(IO, ANone);
